@@ -5,10 +5,10 @@ from hc_oracles import amplification_oracle, ep_crash_oracle
 
 PROP = "C18"
 COQ_FILE = "props/C18.v"
-THEOREMS = ['C18_request_is_full_size', 'C18_reply_sizes', 'C18_untracked_address_only_answers_requests', 'C18_pending_address_gets_nothing_for_frames', 'C18_pending_resend_budget']
+THEOREMS = ['C18_request_is_full_size', 'C18_reply_sizes', 'C18_untracked_address_only_answers_requests', 'C18_pending_address_gets_nothing_for_frames', 'C18_pending_resend_budget', 'C18_no_amplification']
 USES_FLOATS = True
 NEEDS_RELEASE = False
-ASSUMPTIONS = ['proved: only a 1472-byte datagram parses as a connection request; replies are 25 / 10 bytes; (10+1)*25 < 1472; untracked and pending addresses get nothing for any other frame; the pending timer sends one stored reply per expiry with a decreasing budget. The summation over a history is checked by the per-address byte-count oracle (partial in that respect)']
+ASSUMPTIONS = ['proved: only a 1472-byte datagram parses as a connection request; replies are 25 / 10 bytes; (10+1)*25 < 1472; untracked and pending addresses get nothing for any other frame; the pending timer sends one stored reply per expiry with a decreasing budget; and over WHOLE histories (C18_no_amplification): for every history of server steps with any datagrams from any addresses and any clock values, flushes and application calls, and every address A with no Connect event, 1472 * bytes sent to A <= 275 * bytes received from A (potential: bytes sent + 25 * retransmissions still held by the timer heap for the pending entry; proofs/ServerBytes.v, HeapCount.v). The per-address byte-count oracle checks the same on the implementation']
 THEOREM_STATEMENTS = []
 QUICK = {"lifecycle": 40, "forge": 60, "limits": 60, "amplify": 60, "timers": 50}
 
